@@ -34,10 +34,21 @@ func init() {
 			{ID: "R03.9", Template: "T-MUSTPASS", Text: "all function type indexes are range-checked before any body is validated (genuine defect found and fixed)", Min: 1},
 			{ID: "R03.10", Template: "T-MUSTPASS", Text: "compiler frontend arms consume their immediates before the unreachable early exit", Min: 50},
 			{ID: "R03.11", Template: "T-WIDTH", Text: "interpreter drop ranges are computed in slot units, not value counts", Min: 1},
+			{ID: "R03.12", Template: "T-CONSULT", Text: "instantiation-time loops over element segments look up the table of active segments only (genuine defect found and fixed)", Min: 2},
+			{ID: "R03.13", Template: "T-SIBLING", Text: "every dispatch on the 0xFC sub-opcode decodes it as LEB128 (genuine defect found and fixed: interpreter signature table)", Min: 3},
+			{ID: "R03.14", Template: "T-CONSULT", Text: "the DWARF reader nil-tests what debug/dwarf hands out and bounds runs of null entries (genuine defects found and fixed)", Min: 3},
+			{ID: "R03.15", Template: "T-CONSULT", Text: "the validator compares a tail call's callee results with the function's results (genuine defect found and fixed)", Min: 2},
+			{ID: "R03.16", Template: "T-TAINT", Text: "no string concatenation in loops over input-sized data on the decode path (genuine defect found and fixed: FunctionType.key)", Min: 1},
 			{ID: "R03.8", Template: "T-CONSULT", Text: "decoder reads cannot be empty reads at the end of the input (genuine defect found and fixed: trailing custom section with an empty payload)", Min: 2},
 		},
 		Run: runC03,
 		Controls: []core.Control{
+			{Name: "passive-elements-bounds-checked", File: "internal/wasm/table.go", Old: "\t\t\tif !elem.IsActive() {\n\t\t\t\tcontinue // only active segments are written to a table at instantiation.\n\t\t\t}\n", New: "", Rule: "R03.12", Substr: "buildTables"},
+			{Name: "misc-subopcode-single-byte", File: "internal/engine/interpreter/signature.go", Old: "switch miscOp := wasm.OpcodeMisc(miscOp32); miscOp {", New: "switch miscOp := c.body[c.pc+1]; miscOp {", Rule: "R03.13", Substr: "wasmOpcodeSignature"},
+			{Name: "dwarf-line-file-unchecked", File: "internal/wasmdebug/dwarf.go", Old: "\tif le.File == nil {\n", New: "\tif le.Line < 0 {\n", Rule: "R03.14", Substr: "le.File"},
+			{Name: "dwarf-null-entries-unbounded", File: "internal/wasmdebug/dwarf.go", Old: "\t\t\tif nullEntries++; nullEntries > maxConsecutiveNullEntries {\n\t\t\t\tbreak\n\t\t\t}\n", New: "\t\t\tnullEntries++\n", Rule: "R03.14", Substr: "loop"},
+			{Name: "tail-call-results-unchecked", File: "internal/wasm/func_validation.go", Old: "\t\t\t\tif !bytes.Equal(funcType.Results, functionType.Results) {\n\t\t\t\t\treturn fmt.Errorf(\"type mismatch on %s operation result type\", opcodeName)\n\t\t\t\t}\n", New: "", Rule: "R03.15", Substr: "OpcodeTailCallReturnCall "},
+			{Name: "type-key-by-concatenation", File: "internal/wasm/module.go", Old: "\tfor _, b := range f.Results {\n\t\tret.WriteString(ValueTypeName(b))\n\t}", New: "\tvar tail string\n\tfor _, b := range f.Results {\n\t\ttail += ValueTypeName(b)\n\t}\n\tret.WriteString(tail)", Rule: "R03.16", Substr: "key"},
 			{Name: "type-index-checked-lazily", File: "internal/wasm/module.go", Old: "\t\t}\n\t}\n\tfor idx := range m.FunctionSection {\n\t\tc := &m.CodeSection[idx]", New: "\t\t}\n\t\tc := &m.CodeSection[idx]", Rule: "R03.9", Substr: "type indexes"},
 			{Name: "lane-immediate-after-unreachable-exit", File: "internal/engine/wazevo/frontend/lower.go", Old: "\t\t\t_, offset := c.readMemArg()\n\t\t\tstate.pc++\n\t\t\tif state.unreachable {\n\t\t\t\tbreak\n\t\t\t}\n\t\t\tlaneIndex := c.wasmFunctionBody[state.pc]\n\t\t\tvar storeOp ssa.Opcode", New: "\t\t\t_, offset := c.readMemArg()\n\t\t\tif state.unreachable {\n\t\t\t\tbreak\n\t\t\t}\n\t\t\tstate.pc++\n\t\t\tlaneIndex := c.wasmFunctionBody[state.pc]\n\t\t\tvar storeOp ssa.Opcode", Rule: "R03.10", Substr: "Store8Lane"},
 			{Name: "drop-range-counts-values", File: "internal/engine/interpreter/compiler.go", Old: "\t\tstart = frame.blockType.ParamNumInUint64\n", New: "\t\tstart = len(frame.blockType.Params)\n", Rule: "R03.11", Substr: "getFrameDropRange"},
@@ -65,6 +76,7 @@ func runC03(c *core.Ctx) {
 	checkTypeIndexPrePass(c)
 	checkImmediatesBeforeUnreachable(c)
 	checkDropRangeUnits(c)
+	checkBaseline3C03(c)
 }
 
 // ---- R03.1 / R01.1
